@@ -35,7 +35,8 @@ DISABLE_PATTERNS_LC = ['# disable_doctest', '# Script', '# Unstable', '# failing
 BASE_KINDS = ['pass', 'fail_out', 'fail_exc', 'fail_last', 'all_skipped', 'req_unmet', 'partly', 'expected_exc', 'comment_only',
               'disabled', 'pass', 'fail_out', 'inline_skipped_after_directive', 'req_after_directive', 'fail_warn', 'pass_warn',
               'fail_directive_first', 'comment_then_skipped', 'skipped_then_comment', 'expected_exc_nomsg', 'expected_exc_qualified',
-              'expected_exc_syntax', 'pass_marker_word_comment', 'runtime_pytest_skip', 'runtime_exit_test']
+              'expected_exc_syntax', 'pass_marker_word_comment', 'runtime_pytest_skip', 'runtime_exit_test', 'skip_resume_pass',
+              'skip_resume_fail', 'skip_resume_inline', 'comment_only_indented', 'skipped_then_comment_indented']
 OPTION_KINDS = ['needs_ellipsis', 'needs_nw', 'needs_iw']
 MERGEABLE = ('pass', 'fail_out', 'fail_exc', 'fail_last', 'expected_exc')
 
@@ -109,6 +110,21 @@ def block_lines(kind, tid, ind, pattern=None):
               '{}wrong'.format(ind)]
     elif kind == 'comment_only':
         L += ['{}>>> # nothing to run here'.format(ind)]
+    elif kind == 'comment_only_indented':
+        # comment-only parts whose comment lines are indented after the prompt / sit on continuation lines
+        L += ['{}>>> # for item in items:'.format(ind), '{}>>>     # process(item)'.format(ind), '{}>>> # and then'.format(ind),
+              '{}...     # nothing more'.format(ind)]
+    elif kind == 'skipped_then_comment_indented':
+        L += [t + '  # xdoctest: +SKIP', "{}>>> print('never')  # xdoctest: +SKIP".format(ind), '{}wrong'.format(ind),
+              '{}>>> # xdoctest: -SKIP'.format(ind), '{}>>>     # an indented trailing remark'.format(ind)]
+    elif kind in ('skip_resume_pass', 'skip_resume_fail'):
+        # opens with a block +SKIP on its very first line, switches skipping off again further down: the rest runs
+        L += ['{}>>> # xdoctest: +SKIP'.format(ind), "{}>>> print('never')".format(ind), '{}wrong'.format(ind), '{}>>> # xdoctest: -SKIP'.format(ind),
+              t, "{}>>> print('out {}')".format(ind, tid), '{}{}'.format(ind, 'out ' + tid if kind == 'skip_resume_pass' else 'something else')]
+    elif kind == 'skip_resume_inline':
+        # block +SKIP first, one statement re-enabled inline
+        L += ['{}>>> # xdoctest: +SKIP'.format(ind), "{}>>> print('never')".format(ind), '{}wrong'.format(ind), t + '  # xdoctest: -SKIP',
+              "{}>>> print('never either')".format(ind), '{}wrong'.format(ind)]
     elif kind == 'disabled':
         L += ['{}>>> {}'.format(ind, pattern or DISABLE_PATTERNS[0]), t, "{}>>> print('body would fail')".format(ind), '{}wrong'.format(ind)]
     elif kind == 'needs_ellipsis':
@@ -127,7 +143,11 @@ def outcome_of(kind, options=()):
     opts = set(options)
     if '+SKIP' in opts and kind == 'fail_directive_first':
         return 'failed', False        # the malformed directive is met before any skip decision
-    if '+SKIP' in opts and kind != 'comment_only':
+    if kind in ('skip_resume_pass', 'skip_resume_inline'):
+        return 'passed', True            # with or without a +SKIP default: the block / inline -SKIP wins from there on
+    if kind == 'skip_resume_fail':
+        return 'failed', True
+    if '+SKIP' in opts and kind not in ('comment_only', 'comment_only_indented'):
         # every statement is skipped from the start; a block -SKIP is not generated
         return 'skipped', False
     if kind in ('pass', 'partly', 'expected_exc', 'pass_warn', 'expected_exc_nomsg', 'expected_exc_qualified', 'expected_exc_syntax',
@@ -140,7 +160,7 @@ def outcome_of(kind, options=()):
     if kind == 'disabled_lc':
         return 'failed', True            # when it runs (lower-case spelling: whether it is force-disabled is left open)
     if kind in ('all_skipped', 'req_unmet', 'comment_only', 'inline_skipped_after_directive', 'req_after_directive', 'comment_then_skipped',
-                'skipped_then_comment'):
+                'skipped_then_comment', 'comment_only_indented', 'skipped_then_comment_indented'):
         return 'skipped', False
     if kind == 'disabled':
         return 'failed', True            # only when named explicitly
